@@ -148,6 +148,8 @@ def one_project(rep, rng, idx, odd_names):
         nk = collections.Counter(key_of(r, subs_n) for r in nrecs)
         for k in mk:
             rep.case('step:%d:%r' % (idx, k[0]), any(re.search(r'[^A-Za-z0-9_./=$-]', a) for a in k[0]))
+            if k[0] != 'FAILED' and any(a.endswith('.y') for a in k[0]):
+                rep.count('steps:generate (yacc) %s' % ('two outputs, through a stamp' if any(a.startswith('--defines=') for a in k[0]) else 'one output'))
         if mk != nk:
             only_m = list((mk - nk).elements())[:3]
             only_n = list((nk - mk).elements())[:3]
@@ -163,7 +165,7 @@ def one_project(rep, rng, idx, odd_names):
                 continue
             have = set(k[0] for k in mk)
             for e in db:
-                if os.path.basename(e['arguments'][0]) not in ('cc', 'c++', 'gcc', 'g++', 'ar', 'argvrec'):
+                if os.path.basename(e['arguments'][0]) not in ('cc', 'c++', 'gcc', 'g++', 'ar', 'argvrec', 'yacc', 'bison'):
                     rep.count('compdb:entry_of_unrecorded_tool')
                     continue
                 args = tuple(canon(a, subs) for a in e['arguments'][1:] if a not in NINJA_ONLY_FLAGS)
